@@ -239,6 +239,11 @@ class FakeStream:
     async def send(self, data):
         if self.closed or self.peer.closed:
             raise anyio.ClosedResourceError
+        if getattr(self.peer, "never_reads", False):
+            # back-pressure: the peer does not read; once its (finite) receive window is full the write blocks for good
+            self.peer.unread = getattr(self.peer, "unread", 0) + len(data)
+            if self.peer.unread > getattr(self.peer, "window", 256):
+                await anyio.sleep(1e9)
         for chunk in self.net.chunker(bytes(data)):
             self.net.log.append(("stx", self.net.loop.time(), self.local, self.remote, chunk))
             self.net.loop.call_soon(self.peer.inbox.put, chunk)
